@@ -255,6 +255,8 @@ pub struct Scenario {
     pub cancel_budget: usize,
     /// how many times a request and readable bytes may hit the idle select in the same poll
     pub race_budget: usize,
+    /// how many requests may reach the idle select with the queue branch polled first (each costs a deviation)
+    pub order_flip_budget: usize,
     /// `Some(n)`: the transport accepts at most n bytes per write call (short writes)
     pub write_chunk: Option<usize>,
     /// the server processes request lines only at explicit ServerStep events (validation of the
@@ -290,6 +292,7 @@ impl Scenario {
             split_menu: SplitMenu::Lines,
             cancel_budget: 0,
             race_budget: 1,
+            order_flip_budget: 1,
             write_chunk: None,
             lazy_server: false,
             initial_notifications: vec![],
@@ -316,6 +319,8 @@ impl Scenario {
             "split_menu": format!("{:?}", self.split_menu),
             "cancel_budget": self.cancel_budget,
             "race_budget": self.race_budget,
+            "order_flip_budget": self.order_flip_budget,
+
             "write_chunk": self.write_chunk,
             "lazy_server": self.lazy_server,
             "initial_notifications": self.initial_notifications,
@@ -336,6 +341,9 @@ pub enum Ev {
     Stop,
     /// lazy server only: process the next complete request line
     ServerStep,
+    /// like Issue, but the idle `select!` polls the request queue before the connection in the
+    /// poll that this event triggers (by default the connection is polled first)
+    IssueQueueFirst(usize),
     DeliverAll,
     Deliver(usize),
     Issue(usize),
@@ -360,6 +368,7 @@ impl Ev {
         match self {
             Ev::Stop => "Stop".into(),
             Ev::ServerStep => "ServerStep".into(),
+            Ev::IssueQueueFirst(i) => format!("Issue({i},queue-polled-first)"),
             Ev::DeliverAll => "DeliverAll".into(),
             Ev::Deliver(k) => format!("Deliver({k})"),
             Ev::Issue(i) => format!("Issue({i})"),
@@ -662,15 +671,21 @@ impl Chooser for IndexChooser {
 /// Replays a list of event names; after the list, defaults.
 pub struct NameChooser {
     pub names: Vec<String>,
+    pub cursor: usize,
 }
 
 impl Chooser for NameChooser {
-    fn choose(&mut self, step: usize, enabled: &[Ev], _obs_hash: u64) -> Result<usize, String> {
-        if let Some(n) = self.names.get(step) {
+    fn choose(&mut self, _step: usize, enabled: &[Ev], _obs_hash: u64) -> Result<usize, String> {
+        // the list may or may not spell out the poll-order pseudo choices
+        if let Some(n) = self.names.get(self.cursor) {
             match enabled.iter().position(|e| &e.name() == n) {
-                Some(i) => Ok(i),
+                Some(i) => {
+                    self.cursor += 1;
+                    Ok(i)
+                }
                 None => Err(format!(
-                    "replay diverged at step {step}: {n} is not enabled; enabled = {:?}",
+                    "replay diverged at choice {}: {n} is not enabled; enabled = {:?}",
+                    self.cursor,
                     enabled.iter().map(|e| e.name()).collect::<Vec<_>>()
                 )),
             }
@@ -696,6 +711,8 @@ struct World {
     notifies_used: usize,
     cancels_used: usize,
     races_used: usize,
+    flips_used: usize,
+    rng_pos: usize,
     faults_used: usize,
     loose_ticks_used: usize,
     fault: Option<(Ev, usize)>,
@@ -909,6 +926,37 @@ impl World {
         }
     }
 
+    /// Learn where the runtime's generator stands (selects polled since the last event have drawn
+    /// from it) by drawing one value and locating it in the known sequence.
+    fn rng_sync(&mut self) {
+        let table = rng_table();
+        let v = tokio::macros::support::thread_rng_n(u32::MAX);
+        let from = self.rng_pos;
+        for p in from..(from + 20_000).min(table.len()) {
+            if table[p] == v {
+                self.rng_pos = p + 1;
+                return;
+            }
+        }
+        self.machinery.push(format!("cannot locate the runtime's random generator in its known sequence (from position {from})"));
+    }
+
+    /// Burn values until the next draw of a `select!` (2 branches) will be `queue_first`.
+    fn rng_align(&mut self, queue_first: bool) {
+        let table = rng_table();
+        // thread_rng_n(u32::MAX) = raw - 1; the next select draw is raw's top bit
+        let top = |v: u32| (v.wrapping_add(1) >> 31) == 1;
+        let mut guard = 0;
+        while self.rng_pos < table.len() && top(table[self.rng_pos]) != queue_first {
+            let _ = tokio::macros::support::thread_rng_n(2);
+            self.rng_pos += 1;
+            guard += 1;
+            if guard > 1000 {
+                break;
+            }
+        }
+    }
+
     /// lazy server: process everything the client has written so far
     fn flush_inbox(&self) {
         let mut guard = self.sh();
@@ -1023,6 +1071,15 @@ impl World {
                 }
             }
         }
+        // a request that reaches the idle select while only the queue branch is ready: polling the
+        // (pending) connection branch first must not matter, nor must skipping it
+        if self.flips_used < self.scn.order_flip_budget && self.connected() && !self.handles_dropped && self.fault.is_none() && self.last_client_line().as_deref() == Some(&b"idle"[..]) {
+            for (i, c) in self.callers.iter().enumerate() {
+                if c.next < c.prog.ops.len() && (c.prog.pipeline || c.pending.is_empty()) {
+                    alts.push(Ev::IssueQueueFirst(i));
+                }
+            }
+        }
         if self.cancels_used < self.scn.cancel_budget {
             for (i, c) in self.callers.iter().enumerate() {
                 for p in &c.pending {
@@ -1127,7 +1184,10 @@ impl World {
                 s.delivered = (s.delivered + k).min(s.visible_len());
                 s.wake_reader();
             }
-            Ev::Issue(i) => {
+            Ev::Issue(i) | Ev::IssueQueueFirst(i) => {
+                if matches!(ev, Ev::IssueQueueFirst(_)) {
+                    self.flips_used += 1;
+                }
                 let i = *i;
                 let op_idx = self.callers[i].next;
                 self.callers[i].next += 1;
@@ -1253,32 +1313,48 @@ pub fn noop_waker() -> Waker {
     Waker::from(Arc::new(Noop))
 }
 
-/// Execute one schedule of `scn` on the real client.
 pub const RACE_RETRY: &str = "RACE_RETRY";
 pub static RACE_RETRIES: AtomicU64 = AtomicU64::new(0);
 
-/// Execute one schedule of `scn` on the real client. `tokio::select!` picks its first branch with
-/// a runtime-internal random number; a `Race` event fixes the order the explorer wants, so an
-/// execution in which the runtime chose the other order is discarded and repeated (the accepted
-/// execution is fully determined by the choice list).
+/// Every runtime of the harness is built with this seed, so the sequence of values that
+/// `tokio::select!` draws (one per poll of a select) is the same known sequence in every execution.
+pub const RNG_SEED: u64 = 0x5EED_0F_A11;
+
+fn rt_with_seed(seed: u64) -> tokio::runtime::Runtime {
+    tokio::runtime::Builder::new_current_thread()
+        .enable_time()
+        .start_paused(true)
+        .rng_seed(tokio::runtime::RngSeed::from_bytes(&seed.to_le_bytes()))
+        .build()
+        .expect("runtime")
+}
+
+/// The generator's raw 32-bit outputs for RNG_SEED, learnt once from a probe runtime:
+/// `thread_rng_n(n)` is `(raw * n) >> 32`, so `thread_rng_n(u32::MAX)` returns `raw - 1` (0 for raw
+/// 0) and `thread_rng_n(2)` returns raw's top bit (0 = the select polls its first branch, the
+/// connection, first; 1 = the request queue).
+fn rng_table() -> &'static Vec<u32> {
+    static TABLE: std::sync::OnceLock<Vec<u32>> = std::sync::OnceLock::new();
+    TABLE.get_or_init(|| {
+        let rt = rt_with_seed(RNG_SEED);
+        rt.block_on(async { (0..400_000).map(|_| tokio::macros::support::thread_rng_n(u32::MAX)).collect() })
+    })
+}
+
+
+/// Execute one schedule of `scn` on the real client. `tokio::select!` picks the branch it polls
+/// first with a value drawn from the runtime's generator on every poll; the harness builds every
+/// runtime with the same seed, knows the resulting sequence (`rng_table`), re-locates the
+/// generator's position before every event (`rng_sync`) and burns values until the next draw is
+/// the order it wants for the poll that the event triggers (`rng_align`). Executions are therefore
+/// deterministic functions of their choice list, poll order included.
 pub fn run_once(scn: &Scenario, chooser: &mut dyn Chooser) -> Result<Trace, String> {
-    for _ in 0..5000 {
-        match run_attempt(scn, chooser) {
-            Err(e) if e == RACE_RETRY => {
-                RACE_RETRIES.fetch_add(1, Ordering::Relaxed);
-            }
-            other => return other,
-        }
-    }
-    Err("a Race event never saw the requested select! branch order in 5000 attempts".to_string())
+    run_attempt(scn, chooser)
 }
 
 fn run_attempt(scn: &Scenario, chooser: &mut dyn Chooser) -> Result<Trace, String> {
-    let rt = tokio::runtime::Builder::new_current_thread()
-        .enable_time()
-        .start_paused(true)
-        .build()
-        .map_err(|e| format!("cannot build runtime: {e}"))?;
+    let _ = rng_table();
+    let rt = rt_with_seed(RNG_SEED);
     let result = rt.block_on(run_async(scn, chooser));
     drop(rt);
     result
@@ -1361,6 +1437,8 @@ async fn run_async(scn: &Scenario, chooser: &mut dyn Chooser) -> Result<Trace, S
         notifies_used: scn.initial_notifications.len(),
         cancels_used: 0,
         races_used: 0,
+        flips_used: 0,
+        rng_pos: 0,
         faults_used: 0,
         loose_ticks_used: 0,
         fault: None,
@@ -1394,6 +1472,10 @@ async fn run_async(scn: &Scenario, chooser: &mut dyn Chooser) -> Result<Trace, S
         let strict = w.strict_tick();
         w.log(Obs::Ev { step: w.step, name: ev.name(), strict_tick: strict });
         let log_before = w.sh().log.len();
+        // own select!'s branch order for the poll this event triggers
+        w.rng_sync();
+        let queue_first = matches!(ev, Ev::IssueQueueFirst(_) | Ev::Race { recv_first: false, .. });
+        w.rng_align(queue_first);
         w.apply(&ev).await;
         w.settle().await;
         if let Ev::Race { recv_first, .. } = &ev {
@@ -1405,7 +1487,7 @@ async fn run_async(scn: &Scenario, chooser: &mut dyn Chooser) -> Result<Trace, S
                 _ => None,
             });
             match actual {
-                Some(a) if a != *recv_first => return Err(RACE_RETRY.to_string()),
+                Some(a) if a != *recv_first => w.machinery.push(format!("select! polled {} first although the seeded order says otherwise", if a { "the connection" } else { "the queue" })),
                 Some(_) => {}
                 // the loop is not in its idle select any more (it ended after a fault): nothing raced
                 None => {}
@@ -1721,7 +1803,7 @@ pub fn explore(scn: &Scenario, bound: usize, oracle: &Oracle, budget: &Budget) -
 
 /// Re-execute one recorded choice list (by event name) and print the trace.
 pub fn replay_names(scn: &Scenario, names: Vec<String>, oracle: &Oracle) -> i32 {
-    let mut chooser = NameChooser { names };
+    let mut chooser = NameChooser { names, cursor: 0 };
     match run_once(scn, &mut chooser) {
         Err(e) => {
             println!("replay failed: {e}");
